@@ -12,6 +12,7 @@ mod truncation;
 mod bgzfseek;
 mod chunked;
 mod sinks;
+mod fastaq;
 
 // Allocation cap for the hostile-input child processes: a single allocation request above ALLOC_CAP fails (-> Rust aborts with
 // "memory allocation of N bytes failed").  This makes "a few hundred input bytes ask for more than 1 GiB" a deterministic
